@@ -244,7 +244,7 @@ static ClassResult classify_text(const std::string &plan_text, const std::string
   int be = 0, fault = 0;
   bool any_fault = false, got_error = false;
   std::string first_detail;
-  bool pl_longer = false, tree_block = false;
+  bool pl_longer = false, tree_block = false, badtok = false;
   while (std::getline(is, line)) {
     if (line.compare(0, 7, "SYNERR ") == 0) continue;
     if (line.compare(0, 6, "PLLEN ") == 0 && !got_error) {
@@ -258,6 +258,7 @@ static ClassResult classify_text(const std::string &plan_text, const std::string
       int idx;
       if (sscanf(line.c_str(), "OPBEGIN %d %31s be=%d fault=%d", &idx, k, &be, &fault) == 4) {
         opkind = k;
+        badtok = fault == (int)Fault::BADTOK;
         if (fault >= 1 && fault <= 5) any_fault = true;
       }
       if (idx == 0) any_fault = (fault >= 1 && fault <= 5);
@@ -317,6 +318,7 @@ static ClassResult classify_text(const std::string &plan_text, const std::string
   std::string prop = "C14";
   if (any_fault) prop = "C17";
   else if (opkind == "FREE_TREE" || opkind == "WALK" || (tree_block && !pl_longer)) prop = "C13";
+  else if (opkind == "PARSE" && badtok) prop = "C15"; // the input held an undeclared code: the call had to end in read_toks
   else if (be == 1) prop = "C16";
   cr.classes.push_back(prop + "/" + kind + "/" + site);
   cr.details.push_back("crash during " + opkind + " be=" + std::to_string(be) + ": " + first_detail);
